@@ -553,7 +553,25 @@ def r8_6(F, R):
         R.ok("R8.6", "SerializableMap::new", "%d probe(s) keyed by Rc::as_ptr" % len(probes), loc, how="def-use")
 
 
+def r8_7(F, R):
+    import json, os
+    from .common import narrowing_rule
+    aud = json.load(open(os.path.join(os.path.dirname(os.path.dirname(os.path.dirname(os.path.abspath(__file__)))), "tables", "narrowing_audited.json")))
+    words = ("serde", "serializ", "Serializ", "deserializ", "Deserializ")
+
+    def in_scope(fn):
+        if fn.crate not in ("texlang.lib", "texlang_stdlib.lib", "texcraft_stdext.lib") or "::_::" in fn.name or "::_#" in fn.name:
+            return False
+        return any(w in fn.name for w in words)
+    narrowing_rule(F, R, "R8.7", "the hand-written checkpoint code (every function of texlang, texlang-stdlib and texcraft-stdext whose path names "
+                   "serialisation: vm::serde, the `serializable` / `from_deserialized` / `finish_deserialization` converters): an index, length or "
+                   "value that is narrowed on its way into the checkpoint comes back as a different one", in_scope, 0, aud)
+    n = len([f for f in F.fns.values() if in_scope(f)])
+    R.floor("R8.7", "hand-written checkpoint functions examined", n, 40)
+
+
 def run(F, R, tier):
+    r8_7(F, R)
     r8_1(F, R, tier)
     r8_6(F, R)
     r8_4(F, R)
